@@ -17,16 +17,16 @@ func VerifC27Window(t []int64, v []float64, w, step int64, strict bool, f func(l
 	}
 }
 
-// VerifC27Exec is Engine.Exec that also returns the evaluator's time scale and the text of the expression the
-// evaluator decided to replace by a storage query ("" if no reduction rule matched). Exec itself is NewEvaluator + Run.
-func VerifC27Exec(ng Engine, ctx context.Context, h Handler, qry Query) (parser.Value, func(), data_model.Timescale, string, error) {
+// VerifC27Exec is Engine.Exec that also returns the evaluator's time scale and the texts of the expressions the
+// evaluator decided to replace by a storage query (none if no reduction rule matched). Exec itself is NewEvaluator + Run.
+func VerifC27Exec(ng Engine, ctx context.Context, h Handler, qry Query) (parser.Value, func(), data_model.Timescale, []string, error) {
 	ev, err := ng.NewEvaluator(ctx, h, qry)
 	if err != nil {
-		return nil, nil, data_model.Timescale{}, "", err
+		return nil, nil, data_model.Timescale{}, nil, err
 	}
-	var replaced string
+	var replaced []string
 	for e := range ev.ars {
-		replaced = e.String()
+		replaced = append(replaced, e.String())
 	}
 	v, cancel, err := ev.Run()
 	return v, cancel, ev.t, replaced, err
